@@ -272,7 +272,9 @@ func (h *headerField) valid() bool {
 		}
 		return true
 	}
-	return false
+	// Fields with other tags are not interpreted. The file format asks readers to ignore tags they
+	// do not know rather than to reject the cache.
+	return true
 }
 
 func readData(b []byte, p *int, e *binary.ByteOrder) []byte {
